@@ -22,25 +22,26 @@ theorem fail_reports_error (env : Env) (fuel : Nat) (states : Json) (name : Str)
 
 /-- a state with `End: true` ends the scope successfully with its output — whatever that output
 contains (in particular an `Error` member does not turn success into failure) -/
-theorem end_reached_succeeds (env : Env) (fuel : Nat) (states : Json) (name : Str) (state out ctx : Json)
+theorem end_reached_succeeds (env : Env) (fuel : Nat) (states : Json) (name : Str) (state raw out ctx : Json)
     (retries : Nat) (st : St) (h : isTrue (fld state "End") = true) :
-    leave env (fuel + 1) states name state out ctx retries st = (.done out, st) := by
+    leave env (fuel + 1) states name state raw out ctx retries st = (.done out, st) := by
   simp [leave, h]
 
 /-- without End the successor is exactly `Next`, entered with the state's output as its input -/
-theorem next_followed (env : Env) (fuel : Nat) (states : Json) (name next : Str) (state out ctx : Json)
+theorem next_followed (env : Env) (fuel : Nat) (states : Json) (name next : Str) (state raw out ctx : Json)
     (retries : Nat) (st : St) (hE : isTrue (fld state "End") = false) (hN : fldStr state "Next" = some next)
     (hL : (render out).length ≤ env.maxData) :
-    leave env (fuel + 1) states name state out ctx retries st = runFrom env fuel states next out ctx 0 st := by
+    leave env (fuel + 1) states name state raw out ctx retries st = runFrom env fuel states next out ctx 0 st := by
   have : ¬ (render out).length > env.maxData := by omega
   simp [leave, hE, hN, this]
 
-/-- a missing `Next` (and no End) is the runtime error, subject to the state's Retry/Catch -/
+/-- a missing `Next` (and no End) is the runtime error, subject to the state's Retry/Catch — which
+work on the state's raw input `raw`, not on the output `out` it could not hand on -/
 theorem missing_next_is_runtime_error (env : Env) (fuel : Nat) (states : Json) (name : Str)
-    (state out ctx : Json) (retries : Nat) (st : St)
+    (state raw out ctx : Json) (retries : Nat) (st : St)
     (hE : isTrue (fld state "End") = false) (hN : fldStr state "Next" = none) :
-    leave env (fuel + 1) states name state out ctx retries st =
-      handleErr env fuel states name state out ctx retries (S "States.Runtime") (S "m") st := by
+    leave env (fuel + 1) states name state raw out ctx retries st =
+      handleErr env fuel states name state raw ctx retries (S "States.Runtime") (S "m") st := by
   simp [leave, hE, hN]
 
 /-- the Succeed state: InputPath then OutputPath, then success -/
@@ -61,7 +62,7 @@ theorem pass_pipeline (env : Env) (fuel : Nat) (states : Json) (name : Str)
     (hp : tmplOpt env input ctx (fld state "Parameters") = .ok params)
     (hm : mergeResult data ctx ((fld state "Result").getD params) state = .ok out) :
     runState env (fuel + 1) states name state data ctx retries st =
-      leave env fuel states name state out ctx retries st := by
+      leave env fuel states name state data out ctx retries st := by
   simp [runState, h, hi, hp, hm]
 
 /-- `mergeResult` is ResultPath (placing into the raw input) followed by OutputPath -/
@@ -77,11 +78,11 @@ theorem task_pipeline (env : Env) (fuel : Nat) (states : Json) (name fn : Str)
     (hr : rpcFunction ((fldStr state "Resource").getD []) = some fn)
     (hi : applyPath data ctx (pathArg state "InputPath") = .ok input)
     (hp : tmplOpt env input ctx (fld state "Parameters") = .ok params)
-    (hv : decodeReply (env.task fn params (bump st.counts (fn, params)).1) = .ok v)
+    (hv : taskReply env.maxData (env.task fn params (bump st.counts (fn, params)).1) = .ok v)
     (hs : tmplOpt env v ctx (fld state "ResultSelector") = .ok result)
     (hm : mergeResult data ctx result state = .ok out) :
     runState env (fuel + 1) states name state data ctx retries st =
-      leave env fuel states name state out ctx retries
+      leave env fuel states name state data out ctx retries
         { st with counts := (bump st.counts (fn, params)).2 } := by
   have h1 : (S "Task" = S "Pass") = False := by decide
   have h2 : (S "Task" = S "Succeed") = False := by decide
@@ -90,6 +91,17 @@ theorem task_pipeline (env : Env) (fuel : Nat) (states : Json) (name fn : Str)
   have h5 : (S "Task" = S "Choice") = False := by decide
   simp [runState, h, h1, h2, h3, h4, h5, hr, hi, hp, hv, hs, hm]
 
+/-- a worker's reply whose text is longer than the size limit is the error `States.DataLimitExceeded`,
+whatever it says; a reply within the limit is read by `decodeReply` -/
+theorem oversize_reply_is_data_limit_error (maxData : Nat) (r : Json) (h : (render r).length > maxData) :
+    taskReply maxData r = .err (S "States.DataLimitExceeded") (S "m") := by
+  simp [taskReply, h]
+
+theorem reply_within_limit_is_decoded (maxData : Nat) (r : Json) (h : (render r).length ≤ maxData) :
+    taskReply maxData r = decodeReply r := by
+  have : ¬ (render r).length > maxData := by omega
+  simp [taskReply, this]
+
 /-- a failing task hands its error to the state's Retry/Catch with the state's raw input -/
 theorem task_error_goes_to_handler (env : Env) (fuel : Nat) (states : Json) (name fn : Str)
     (state data ctx input params : Json) (e msg : Str) (retries : Nat) (st : St)
@@ -97,7 +109,7 @@ theorem task_error_goes_to_handler (env : Env) (fuel : Nat) (states : Json) (nam
     (hr : rpcFunction ((fldStr state "Resource").getD []) = some fn)
     (hi : applyPath data ctx (pathArg state "InputPath") = .ok input)
     (hp : tmplOpt env input ctx (fld state "Parameters") = .ok params)
-    (hv : decodeReply (env.task fn params (bump st.counts (fn, params)).1) = .err e msg) :
+    (hv : taskReply env.maxData (env.task fn params (bump st.counts (fn, params)).1) = .err e msg) :
     runState env (fuel + 1) states name state data ctx retries st =
       handleErr env fuel states name state data ctx retries e msg
         { st with counts := (bump st.counts (fn, params)).2 } := by
@@ -115,7 +127,7 @@ theorem fanout_join_pipeline (env : Env) (fuel : Nat) (states : Json) (name : St
     (hs : tmplOpt env (.arr results) ctx (fld state "ResultSelector") = .ok result)
     (hm : mergeResult data ctx result state = .ok out) :
     joinAndLeave env (fuel + 1) states name state data ctx retries (.ok results) st =
-      leave env fuel states name state out ctx retries st := by
+      leave env fuel states name state data out ctx retries st := by
   simp [joinAndLeave, hs, hm]
 
 /-- a failed branch fails the fan-out state with the branch's error name, subject to the fan-out
@@ -124,9 +136,9 @@ theorem fanout_failure_goes_to_handler (env : Env) (fuel : Nat) (states : Json) 
     (state data ctx : Json) (e : Str) (c : Option Json) (f : Bool) (retries : Nat) (st : St) :
     ∃ msg, joinAndLeave env (fuel + 1) states name state data ctx retries (.error (.failed e c f)) st =
       handleErr env fuel states name state data ctx retries e msg st := by
-  cases c with
-  | none => exact ⟨[], by simp [joinAndLeave]⟩
-  | some c => exact ⟨S "m", by simp [joinAndLeave]⟩
+  cases h : isTrue c with
+  | false => exact ⟨[], by simp [joinAndLeave, h]⟩
+  | true => exact ⟨S "m", by simp [joinAndLeave, h]⟩
 
 /-- branch `b`, started at its StartAt on `params`, ran to completion with output `v` -/
 def BranchRan (env : Env) (params ctx b v : Json) : Prop :=
@@ -339,6 +351,7 @@ example : (run envK 10 aslPass (.obj []) (.obj [])).status = S "SUCCEEDED" ∧
 
 private def failSt : Json := .obj [(k "Type", .str (k "Fail")), (k "Error", .str (k "E1"))]
 example : stateType failSt = S "Fail" := by decide
+example : (render (.str (k "0123456789"))).length > 10 ∧ (render (.num 5)).length ≤ 10 := by decide
 example : isTrue (fld passEnd "End") = true := by decide
 
 private def par : Json := .obj [(k "StartAt", .str (k "A")), (k "States", .obj [(k "A",
